@@ -173,9 +173,33 @@ POS = {
     "union_operand": lambda Q, v: Q.from_(_t()).select("a").union(Q.from_(Table("u")).select("x").where(Table("u").y == v)),
     "returning": None,  # filled for postgresql below
 }
+# every public Term method that takes a constant (the pattern methods take strings; the named comparison methods any value)
+for _m in ("not_like", "ilike", "not_ilike", "rlike", "regex", "bin_regex", "glob"):
+    POS["m_" + _m] = (lambda m: (lambda Q, v: Q.from_(_t()).select("a").where(getattr(_t().a, m)(v))))(_m)
+for _m in ("eq", "ne", "gt", "gte", "lt", "lte"):
+    POS["m_" + _m] = (lambda m: (lambda Q, v: Q.from_(_t()).select("a").where(getattr(_t().a, m)(v))))(_m)
+# the value inside a statement that was built through another dialect's class and is embedded here: the embedding statement's
+# dialect decides the literal
+def _other(Q):
+    return fp.QCLS["generic"] if Q is fp.QCLS["mysql"] else fp.QCLS["mysql"]
+
+
+POS["create_as_select"] = lambda Q, v: Q.create_table("n").as_select(Q.from_(_t()).select("a").where(_t().a == v))
+POS["create_as_select_other_cls"] = lambda Q, v: Q.create_table("n").as_select(_other(Q).from_(_t()).select("a").where(_t().a == v))
+POS["subquery_where_other_cls"] = lambda Q, v: Q.from_(_t()).select("a").where(_t().a.isin(_other(Q).from_(Table("u")).select("x").where(Table("u").y == v)))
+POS["from_sub_other_cls"] = lambda Q, v: (lambda sq: Q.from_(sq).select(sq.x))(_other(Q).from_(Table("u")).select("x").where(Table("u").y == v).as_("sq"))
+POS["union_operand_other_cls"] = lambda Q, v: Q.from_(_t()).select("a").union(_other(Q).from_(Table("u")).select("x").where(Table("u").y == v))
+POS["m_from_to"] = lambda Q, v: Q.from_(_t()).select("a").where(_t().a.from_to(v, 0))
+POS["between_upper"] = lambda Q, v: Q.from_(_t()).select("a").where(_t().a.between(0, v))
+# containers of other Python types
+POS["in_tuple"] = lambda Q, v: Q.from_(_t()).select("a").where(_t().a.isin((0, v)))
+POS["in_set"] = lambda Q, v: Q.from_(_t()).select("a").where(_t().a.isin({v}))
+POS["in_set_mixed"] = lambda Q, v: Q.from_(_t()).select("a").where(_t().a.isin({v, None, 7}) if v not in (None, 7) else _t().a.isin({v}))
+POS["notin_set_mixed"] = lambda Q, v: Q.from_(_t()).select("a").where(_t().a.notin({v, None, 7}) if v not in (None, 7) else _t().a.notin({v}))
 POS.pop("returning")
 # positions that accept only some kinds
-ONLY = {"like": {"str"}, "json_key": {"str", "int"}, "json_has_key": {"str"}, "arith": {"int", "float", "decimal", "str"},
+ONLY = {"like": {"str"}, "m_not_like": {"str"}, "m_ilike": {"str"}, "m_not_ilike": {"str"}, "m_rlike": {"str"}, "m_regex": {"str"},
+        "m_bin_regex": {"str"}, "m_glob": {"str"}, "json_key": {"str", "int"}, "json_has_key": {"str"}, "arith": {"int", "float", "decimal", "str"},
         "arith_sub": {"int", "float", "decimal", "enum", "bool"}, "arith_sub_prod": {"int", "float", "decimal", "enum"},
         "arith_sub_where": {"int", "float", "decimal", "enum"}, "arith_sub_negprod": {"int", "float", "decimal"},
         "arith_sub_negquot": {"int", "float", "decimal"}}
@@ -400,7 +424,12 @@ def run_case(case):
     b = benign_of(kind, v)
     bkey = (d, pos, repr(b))
     if bkey not in _BENIGN:
-        _BENIGN[bkey] = [(t.kind, t.value) for t in lex(render(fn(Q, b), Q), lexd)]
+        try:
+            _BENIGN[bkey] = [(t.kind, t.value) for t in lex(render(fn(Q, b), Q), lexd)]
+        except LexError as e:
+            res.violate("C05|%s|%s|%s|statement-unlexable" % (pos, d, kind), "the statement does not lex in the target dialect even with a plain value",
+                        dialect=d, pos=pos, kind=kind, value=repr(b), sql=render(fn(Q, b), Q), error=str(e))
+            return res
     bt = _BENIGN[bkey]
     res.outcomes.append(h64(sql))
     res.states.append(h64(repr((d, pos, kind))))
@@ -415,6 +444,32 @@ def run_case(case):
     tk = [(t.kind, t.value) for t in toks]
     if any(t.kind == "COM" for t in toks):
         res.violate(sig, "value content is read as a comment", dialect=d, pos=pos, kind=kind, value=repr(v), sql=sql)
+        return res
+    if pos in ("in_set_mixed", "notin_set_mixed"):
+        # a set has no order: the IN list is read as a set of groups - one per member, each the literal of its member
+        k0 = next((x for x, t in enumerate(toks) if t.kind == "WORD" and t.value == "IN"), None)
+        groups, cur, depth = [], [], 0
+        for t in toks[k0 + 2:] if k0 is not None else []:
+            if t.kind == "OP" and t.text in ("(", "["):
+                depth += 1
+            elif t.kind == "OP" and t.text in (")", "]"):
+                if depth == 0:
+                    break
+                depth -= 1
+            if t.kind == "OP" and t.text == "," and depth == 0:
+                groups.append(cur)
+                cur = []
+            else:
+                cur.append(t)
+        groups.append(cur)
+        members = {v, None, 7} if v not in (None, 7) else {v}
+        alts = expected_groups(kind, v, d, pos)
+        rest = [g for g in groups if not group_matches(g, alts)]
+        want_rest = [[("WORD", "NULL")], [("NUM", 7)]] if len(members) == 3 else []
+        got_rest = sorted([[(t.kind, t.value) for t in g] for g in rest], key=repr)
+        if len(groups) != len(members) or got_rest != sorted(want_rest, key=repr):
+            res.violate(sig, "the members of a set given to isin()/notin() are not emitted as one literal each that decodes to the member",
+                        dialect=d, pos=pos, kind=kind, value=repr(v), sql=sql, groups=[[t.text for t in g] for g in groups][:6])
         return res
     # common prefix / suffix with the benign stream
     i = 0
